@@ -85,6 +85,8 @@ def collect(prop=None, tier="quick"):
                     continue
                 if tier == "quick" and h.tier != "quick":
                     continue
+                if tier == "quick" and prop is not None and prop in h.meta.get("thorough_for", "").split(","):
+                    continue        # quick for its main property, thorough only for the others it also serves
                 if tier == "thorough" and h.tier == "fallback":
                     continue
                 if tier == "fallback" and h.tier != "fallback":
